@@ -125,6 +125,12 @@ def _section(c, sec):
         hdr = [rtf.RTFColumnHeader(text=["H%d" % j for j in range(len(displayed))], **hk)]
     elif c["hdr"] == "multi":
         hdr = [rtf.RTFColumnHeader(text=["Top"], col_rel_width=[1], **hk), rtf.RTFColumnHeader(text=["H%d" % j for j in range(len(displayed))], **hk)]
+    elif c["hdr"] == "multi2" and len(displayed) >= 2:
+        # a spanning top row with two cells and a width list of its own, shorter than the table
+        hdr = [rtf.RTFColumnHeader(text=["Left group", "Right group"], col_rel_width=[2, 2], **hk),
+               rtf.RTFColumnHeader(text=["H%d" % j for j in range(len(displayed))], **hk)]
+    elif c["hdr"] == "multi2":
+        hdr = [rtf.RTFColumnHeader(text=["Top"], col_rel_width=[1], **hk), rtf.RTFColumnHeader(text=["H%d" % j for j in range(len(displayed))], **hk)]
     elif c["hdr"] == "none":
         hdr = []
     else:
@@ -161,6 +167,12 @@ def build(c, tmp):
         df, body, hdr = _section(c, 1)
         if hdr is not None:
             kw["rtf_column_header"] = hdr
+        if c.get("prior") == "narrow" and c["m"] >= 2 and c["strat"] == "plain" and c["shape"] == "scalar":
+            # the caller's body object (with the one-value width shorthand) was used for a NARROWER table before
+            import polars as pl
+            body = rtf.RTFBody(col_rel_width=[1], text_format="b", **({"text_font_size": 10.5} if c["size"] == "half" else {}))
+            narrow = df.select(df.columns[:-1])
+            rtf.RTFDocument(df=narrow, rtf_body=body, rtf_title=None).rtf_encode()
         return rtf.RTFDocument(df=df, rtf_body=body, **kw)
     dfs, bodies, hdrs = [], [], []
     for s in range(1, c["nsec"] + 1):
